@@ -52,4 +52,11 @@ PROPS = {
         "assumptions": ["identifiers are valid UTF-8 (protobuf string fields: anything else cannot arrive over the wire)",
                         "the label literally named 'label' is refused by the index layer (modelled as a refusal; on non-transactional drivers the vertex key is already written: thorough tier runs Pebble)"],
     },
+    "C09": {
+        "trusted_base": [
+            "modelled, not verified: kvindex/kvindex.go and entries.go at the level of (field, term, doc) tuples; numeric terms are 64-bit patterns and a field's numeric entries are a list sorted by (pattern, doc id), standing for the key-ordered scan (C09_encoding_order + C10/C16 justify that reading; the byte-level scan itself is compared with the implementation on every run)",
+            "'numeric order on finite doubles = sign-magnitude order on patterns' (fkey) is the standard IEEE-754 fact, assumed; NaN, infinities and -0.0 are outside the domain (finite excludes them)",
+        ],
+        "assumptions": ["documents carry at most one value per field; values are strings or numbers", "a live document contributes the terms of fields registered when it was inserted"],
+    },
 }
